@@ -697,6 +697,17 @@ func checkSortInputKeyedByTxid(c *Ctx, rule string) {
 				continue
 			}
 			set := stripConv(call.Call.Args[0])
+			fn := fn
+			// the set may be built by a private part (a method of the record set that converts it): its returned map
+			if bc, ok := set.(*ssa.Call); ok {
+				if g := bc.Call.StaticCallee(); g != nil && len(g.Blocks) > 0 && fnPkgPath(g) == fnPkgPath(fn) {
+					for _, b := range g.Blocks {
+						if r, ok := b.Instrs[len(b.Instrs)-1].(*ssa.Return); ok && len(r.Results) > 0 {
+							fn, set = g, stripConv(r.Results[0])
+						}
+					}
+				}
+			}
 			for _, b := range fn.Blocks {
 				for _, ins := range b.Instrs {
 					mu, ok := ins.(*ssa.MapUpdate)
